@@ -412,10 +412,17 @@ impl WalWriter {
 
         // Rename to timestamped file. Recovery replays logs in file-name order, so rotated
         // logs must sort before the active `state.wal`: digits sort before 'w'.
-        let timestamp = current_timestamp();
-        let rotated_path = self
+        let mut timestamp = current_timestamp();
+        let mut rotated_path = self
             .path
             .with_file_name(format!("state.{timestamp}.{WAL_EXTENSION}"));
+        // Two rotations within one second must not overwrite each other
+        while rotated_path.exists() {
+            timestamp += 1;
+            rotated_path = self
+                .path
+                .with_file_name(format!("state.{timestamp}.{WAL_EXTENSION}"));
+        }
         std::fs::rename(&self.path, &rotated_path).map_err(|e| {
             P2PError::Storage(StorageError::Database(
                 format!("Failed to rotate WAL: {e}").into(),
